@@ -283,7 +283,7 @@ class G:
                 "order": order, "limit": limit, "offset": offset, "setop": setop}
 
     def dml(self):
-        kind = self.d(st.sampled_from(["insert", "insert", "insert_select", "upsert", "update", "update", "update_from", "update_join", "delete"]))
+        kind = self.d(st.sampled_from(["insert", "insert", "insert_select", "upsert", "upsert_select", "update", "update", "update_from", "update_join", "delete"]))
         if kind in ("insert", "upsert"):
             t = "t3" if kind == "upsert" else self.d(st.sampled_from(["t1", "t3"]))
             cols = TABLES[t]
@@ -309,13 +309,16 @@ class G:
                 sa["conflict"] = {"action": action, "value": self.ne(scope, 1) if action == "update_value" else None,
                                   "where": self.be(scope, 1, allow_sub=False) if action != "nothing" and self.d(st.booleans()) else None}
             return sa
-        if kind == "insert_select":
+        if kind in ("insert_select", "upsert_select"):
             sel = self.select(depth=0, ncols=2, want_int=True, allow_setop=False)
             sel["order"], sel["limit"], sel["offset"], sel["distinct"] = [], None, None, False
-            return {"kind": kind, "table": "t3", "columns": ["k", "v"] if self.d(st.booleans()) else None, "select": sel}
+            sa = {"kind": kind, "table": "t3", "columns": ["k", "v"] if (kind == "upsert_select" or self.d(st.booleans())) else None, "select": sel}
+            if kind == "upsert_select":
+                sa["conflict"] = {"action": self.d(st.sampled_from(["nothing", "update_excluded"]))}
+            return sa
         if kind in ("update", "update_from", "update_join"):
             t = self.d(st.sampled_from(["t1", "t2"]))
-            tgt = {"key": self.key(), "table": t, "alias": None}
+            tgt = {"key": self.key(), "table": t, "alias": "tg" if kind == "update" and self.d(st.integers(0, 4)) == 0 else None}
             srcs = [tgt]
             frm = None
             if kind in ("update_from", "update_join"):
@@ -334,7 +337,7 @@ class G:
                 on = ["eq", ["col", tgt["key"], INTCOLS[t][0]], self.icol([(frm["key"], self.cols_of(frm))])]
             return {"kind": kind, "target": tgt, "from": frm, "sets": sets, "where": where, "on": on}
         t = self.d(st.sampled_from(["t1", "t2", "t3"]))
-        tgt = {"key": self.key(), "table": t, "alias": None}
+        tgt = {"key": self.key(), "table": t, "alias": "tg" if self.d(st.integers(0, 4)) == 0 else None}
         scope = [(tgt["key"], self.cols_of(tgt))]
         return {"kind": "delete", "target": tgt, "where": self.be(scope, 2, allow_sub=True) if self.d(st.integers(0, 9)) < 8 else None}
 
@@ -520,13 +523,16 @@ def P_stmt(sa):
             if c["where"] is not None:
                 steps.append(["where", [P_expr(c["where"], True)]])
         return {"cls": "sqlite", "sources": src, "steps": steps}
-    if k == "insert_select":
+    if k in ("insert_select", "upsert_select"):
         p = P_select(sa["select"])
         p["sources"]["tgt"] = ["tbl", sa["table"], None, None]
         head = [["into", [["src", "tgt"]]]]
         if sa["columns"]:
             head.append(["columns", [["py", c] for c in sa["columns"]]])
         p["steps"] = head + p["steps"]
+        if k == "upsert_select":
+            p["steps"].append(["on_conflict", [["py", "k"]]])
+            p["steps"].append(["do_nothing", []] if sa["conflict"]["action"] == "nothing" else ["do_update", [["py", "v"]]])
         return p
     if k in ("update", "update_from", "update_join"):
         srcs = P_sources([sa["target"]] + ([sa["from"]] if sa["from"] else []))
@@ -680,15 +686,20 @@ def R_stmt(sa):
             if c["where"] is not None and c["action"] != "nothing":
                 sql += " WHERE " + R_expr(c["where"], qual)
         return sql
-    if k == "insert_select":
+    if k in ("insert_select", "upsert_select"):
         sql = "INSERT INTO " + Q(sa["table"])
         if sa["columns"]:
             sql += " (" + ", ".join(Q(c) for c in sa["columns"]) + ")"
-        return sql + " " + R_select(sa["select"])
+        sql += " " + R_select(sa["select"])
+        if k == "upsert_select":
+            if sa["select"]["where"] is None and not sa["select"]["group"]:
+                sql += " WHERE true"  # SQLite's documented way out of the parsing ambiguity between a join constraint and ON CONFLICT
+            sql += ' ON CONFLICT ("k") ' + ("DO NOTHING" if sa["conflict"]["action"] == "nothing" else 'DO UPDATE SET "v" = excluded."v"')
+        return sql
     if k in ("update", "update_from", "update_join"):
         srcs = [sa["target"]] + ([sa["from"]] if sa["from"] else [])
         qual = qualifiers(srcs)
-        sql = "UPDATE " + Q(sa["target"]["table"]) + " SET " + ", ".join("%s = %s" % (Q(c), R_expr(e, qual)) for c, e in sa["sets"])
+        sql = "UPDATE " + R_source(sa["target"]) + " SET " + ", ".join("%s = %s" % (Q(c), R_expr(e, qual)) for c, e in sa["sets"])
         if sa["from"]:
             sql += " FROM " + R_source(sa["from"])
         conds = ([sa["on"]] if sa.get("on") is not None else []) + ([sa["where"]] if sa["where"] is not None else [])
@@ -697,7 +708,7 @@ def R_stmt(sa):
         return sql
     if k == "delete":
         qual = qualifiers([sa["target"]])
-        sql = "DELETE FROM " + Q(sa["target"]["table"])
+        sql = "DELETE FROM " + R_source(sa["target"])
         if sa["where"] is not None:
             sql += " WHERE " + R_expr(sa["where"], qual)
         return sql
@@ -789,7 +800,7 @@ def check(case, stats=None):
             return [(mksig(sa["kind"], "outcome_differs", "reference_raises"), "reference %r fails with %s but %r runs" % (ref, a[2], sql))], info
         if b[0] == "err":
             kind = "engine_reject" if b[1] in ("parse", "resolution") else "outcome_differs"
-            return [(mksig(sa["kind"], kind, b[1]), "SQLite: %s for %r ; the reference %r runs" % (b[2], sql, ref))], info
+            return [(mksig(sa["kind"], kind, b[1]) + dml_tag(sa), "SQLite: %s for %r ; the reference %r runs" % (b[2], sql, ref))], info
         if is_query:
             ra, rb = a[1], b[1]
             if ra:
@@ -807,6 +818,19 @@ def check(case, stats=None):
     ea, eb = explain(ref), explain(sql)
     info["bytecode_equal"] = ea is not None and ea == eb
     return [], info
+
+
+def dml_tag(sa):
+    """narrows the signature of an engine rejection to the construct that provokes it (nothing for the plain shapes)"""
+    if sa["kind"] == "select":
+        return ""
+    tgt = sa.get("target") or {}
+    if tgt.get("alias") or sa.get("table_alias"):
+        return "|aliased_target"
+    if sa["kind"] == "upsert_select":
+        sel = sa["select"]
+        return "|select_without_where" if sel["where"] is None else ""
+    return ""
 
 
 def feature(sa):
